@@ -324,6 +324,48 @@ def run_real(kind):
             a.close()
         except Exception:
             pass
+    problems += run_real_blocking(typ)
+    return problems
+
+
+def run_real_blocking(typ):
+    """frames the peer sent before it went away are still delivered, in order, to a consumer that waits without a timeout
+    (wait_frame() with its default timeout=None), also once the receiving thread has stopped"""
+    import threading
+    from udsoncan.connections import SocketConnection
+    problems = []
+    a, b = socket.socketpair(socket.AF_UNIX, typ)
+    conn = SocketConnection(a)
+    try:
+        conn.open()
+        frames = [b'\x50\x03', b'\x62\xf1\x90VIN', b'\x7f\x22\x31']
+        for f in frames:
+            b.send(f)
+        time.sleep(0.2)
+        b.close()
+        time.sleep(0.3)
+        got = []
+
+        def consume():
+            n = 1 if typ == socket.SOCK_STREAM else len(frames)
+            for _ in range(n):
+                got.append(conn.wait_frame())          # timeout=None: blocks until a frame is there (three are)
+        th = threading.Thread(target=consume, daemon=True)
+        th.start()
+        th.join(10)
+        if th.is_alive():
+            problems.append('wait_frame() without a timeout blocked although %d frames were queued (got %d)' % (len(frames), len(got)))
+        elif typ == socket.SOCK_STREAM:
+            if not got or got[0] is None or not b''.join(frames).startswith(got[0]) or not got[0]:
+                problems.append('wait_frame() without a timeout returned %r, the peer had sent %r before disconnecting' % (got, b''.join(frames)))
+        elif got != frames:
+            problems.append('wait_frame() without a timeout delivered %r, the peer had sent %r before disconnecting' % (got, frames))
+        conn.close()
+    finally:
+        try:
+            a.close()
+        except Exception:
+            pass
     return problems
 
 
